@@ -6,6 +6,8 @@ open H2.Server
 structure State where
   conns : List (String × Srv) := []
   locks : List (String × Lock) := []
+  /-- handlers that returned after their connection's stream loop had ended (connection, stream id) -/
+  late : List (String × Nat) := []
 
 def State.init : State := {}
 
@@ -85,12 +87,15 @@ def step (st : State) (args : List String) : State × String :=
                        maxHeaderList := if mhl == 0 then Gen.c_DefaultMaxHeaderListSize else mhl,
                        maxBody := if mrb > 0 then mrb.toNat else 4 * 1024 * 1024 }
     let s : Srv := { cfg := cfg }
-    ((st.set id s).setLock id {}, fmtOuts (initOuts s))
+    ({ (st.set id s).setLock id {} with late := st.late.filter (·.1 != id) }, fmtOuts (initOuts s))
   | _ :: id :: op :: rest =>
     match st.get id with
     | none => (st, "bad-op")
     | some s =>
-      if op == "mon" || op == "burst" || op == "doneall" || op == "settle" then (st, "mon")
+      if op == "mon" || op == "burst" || op == "doneall" || op == "settle" || op == "stall" then (st, "mon")
+      else if op == "stallcut" then
+        -- the peer stops reading, goes on sending and disconnects: judged by the monitors; the connection is over
+        (st.set id { s with returned := true, rlStopped := true, slStopped := true }, "mon")
       else if op == "gauges" then (st, if s.undefined then "undef" else if s.returned then "ok gone" else gauges s)
       else if op == "end" then
         (st.set id { s with returned := true, rlStopped := true, slStopped := true }, if s.undefined then "undef" else "ok returned")
@@ -113,11 +118,14 @@ def step (st : State) (args : List String) : State × String :=
             match parseResp sid more with
             | none => (st, "bad-op")
             | some resp =>
-              let running := (s.strms.any fun x => x.id == sid && x.handlerRunning) ||
-                             (s.abandoned.any fun x => x.id == sid)
+              let running := ((s.strms.any fun x => x.id == sid && x.handlerRunning) ||
+                              (s.abandoned.any fun x => x.id == sid)) && !st.late.contains (id, sid)
               if !running then (st, "out no-handler") else
               -- a block the peer's decoder rejects is still printed; what follows is beyond the model
-              runEvent st id s (.done sid resp) fun s s' => !(s'.undefined && !(s'.peerDecBroken && !s.peerDecBroken))
+              let (st', res) := runEvent st id s (.done sid resp) fun s s' => !(s'.undefined && !(s'.peerDecBroken && !s.peerDecBroken))
+              -- when the stream loop has ended nobody takes note of the handler's return (the model's step leaves the
+              -- state alone), but the handler is gone all the same: the harness will not find it parked again
+              if s.slStopped then ({ st' with late := (id, sid) :: st'.late }, res) else (st', res)
         | _ => (st, "bad-op")
       else if op == "cut" then
         runEvent st id s .cut fun _ _ => true
